@@ -21,6 +21,7 @@ import time
 sys.path.insert(0, os.path.dirname(os.path.abspath(__file__)))
 from common import *  # noqa
 import props
+import tie
 
 FORBIDDEN = re.compile(r"\b(Admitted|admit|Axiom|Axioms|Parameter|Parameters|Conjecture|Conjectures|Admit Obligations)\b"
                        r"|Unset Guard|bypass_check|type-in-type|impredicative-set|Unset Positivity|Unset Universe")
@@ -208,6 +209,23 @@ def main():
         ok_coq = False
         cinfo["log"] += "\nhygiene: " + "; ".join(hy[:5])
 
+    # ---- 1b. translation tie: the integer/decision core of src/bounds, translated from the source as it is
+    # now, must still be the model's (bridge lemmas re-proved on every run)
+    tie_res, tie_rel, tie_failed, tie_untr = {}, [], [], []
+    if ok_coq:
+        try:
+            tie_res = tie.tie_check()
+            tie_rel, tie_failed, tie_untr = tie.for_property(prop, tie_res)
+        except BuildError as e:
+            ok_coq = False
+            cinfo["log"] += "\ntie: " + str(e)[-1500:]
+            cinfo["failed_file"] = "Tie/"
+        if tier == "thorough" and tie_rel and not tie_failed and not tie_untr:
+            rc, out = sh(["timeout", "3000", "coqchk", "-silent", "-o", "-Q", COQ, "TucModel", "TucModel.Tie.Corollaries"], cwd=COQ, check=False)
+            if rc != 0 or re.search(r"Axioms:\s*<none>", out) is None:
+                ok_coq = False
+                cinfo["log"] += "\ncoqchk Tie/Corollaries: " + out[-800:]
+
     # ---- 2. builds
     try:
         drv = build_driver()
@@ -234,6 +252,10 @@ def main():
     # ---- 3. cases
     rng = random.Random(seed * 1000003 + int(prop[1:]))
     budget = P["budget"][0 if tier == "quick" else 1]
+    if tie_failed:
+        budget *= 3        # a bridge lemma broke: look harder for a concrete failing input
+    elif tie_untr:
+        budget *= 2        # the code left the translator's subset: the correspondence check carries the tie alone
     corpus = props.corpus_cases(prop)
     gen = P["gen"](rng, budget, tier)
     # every mode must give the same result however stdin arrives: one generated CLI case in eight is
@@ -352,6 +374,14 @@ def main():
                            "the library-channel cases were skipped, the binary was still exercised",
                            {"property": prop, "kind": "correspondence-build", "correspondence": "harness-rs (lib channel)",
                             "detail": lib_broken}, False))
+    for fn in tie_failed:
+        r = tie_res.get(fn, tie_res.get("_corollaries", {}))
+        violations.append(("the code as translated from the current source is no longer shown to be the model's: %s does not check" % r.get("lemma", "Tie/Corollaries.v"),
+                           {"property": prop, "kind": "translation-tie", "function": fn, "source": r.get("source"),
+                            "theorem": r.get("lemma", "Tie/Corollaries.v"), "file": "coq/Tie/Bridge_%s.v" % fn,
+                            "log": r.get("detail", "")[-1500:],
+                            "argument_search": r.get("search", "not run"),
+                            "properties_resting_on_it": tie.USES.get(fn)}, False))
     if not ok_coq:
         violations.append(("proof / pin / hygiene check failed",
                            {"property": prop, "kind": "proof", "file": cinfo.get("failed_file"),
@@ -367,8 +397,8 @@ def main():
                for c in cases[:3] + cases[len(corpus):len(corpus) + 3] if c.id in model][:6]
     lem = count_lemmas(prop)
     cov = {
-        "obligations": cinfo["obligations"] + lem,
-        "discharged": (cinfo["discharged"] + lem) if ok_coq else 0,
+        "obligations": cinfo["obligations"] + lem + len(tie_rel),
+        "discharged": (cinfo["discharged"] + lem + len([n for n in tie_rel if tie_res[n]["status"] == "bridged"])) if ok_coq else 0,
         "checker_cmd": "cd /verif/coq && make (coq_makefile, full .vo build) && coqc -Q . TucModel Pins/%s.v" % prop,
         "trusted_base": props.TRUSTED,
         "theorems": cinfo["theorems"],
@@ -387,6 +417,11 @@ def main():
         "traces_validated_against_impl": len(cases) - len(disagreements),
         "corpus": len(corpus),
         "segmented_twins": len(twins),
+        "translation_tie": {"functions": {k: {kk: vv for kk, vv in v.items() if kk in ("status", "source", "lemma") or (kk == "detail" and v["status"] != "bridged")}
+                                          for k, v in tie_res.items() if not k.startswith("_")},
+                            "corollaries": tie_res.get("_corollaries", {}).get("status"),
+                            "relevant_to_this_property": tie_rel,
+                            "how": "translator/ (rs2coq, syn) regenerates coq/Tie/Gen_*.v from the working tree; coq/Tie/Bridge_*.v and Corollaries.v are re-checked when they change"},
         "release_build_checked": bool(tuc_rel),
         "exhaustive": False,
     }
